@@ -10,7 +10,5 @@ func init() {
 		{"control/beacon", "UsageDownReg", ""},
 		{"control/beacon", "UsageCoreReg", ""},
 		{"control/beacon", "UsageProp", ""},
-		{"pkg/slayers/path", "MaxTTL", ""},
-		{"pkg/slayers/path", "expTimeUnit", ""},
 	}))
 }
